@@ -20,6 +20,8 @@ Every value is a JSON string; services return constants.  Schedules: random deli
 duplication and re-delivery of old particles) and call-result batches, then a deterministic drain."""
 import hashlib
 import json
+import os
+import shutil
 
 import vlib
 
@@ -213,7 +215,7 @@ HOLE_REPLAY = {
 
 
 def gen_cases(rng, tier, escalate=False):
-    n = {"quick": 100, "thorough": 1500}[tier] * (3 if escalate else 1)
+    n = {"quick": 100, "thorough": 1000}[tier] * (3 if escalate else 1)
     cases = [history(rng) for _ in range(n)]
     # the size limit: one below, at, and above STREAM_MAX_SIZE (the driver is told how many appends the program attempts)
     totals = [1023, 1024] if tier == "quick" else [1, 31, 32, 33, 1000, 1022, 1023, 1024, 1025, 1056]
@@ -269,7 +271,11 @@ def evaluate(pid, cases, result, checks, nontrivial, classify=None, shard_size=1
         return outs, set()
     checks = dict(checks)
     checks.setdefault("auxev", "c13_no_hole_evidence")
-    fails, errs = vlib.coq_eval_cases(pid, HEADER, TYPE, checks, terms, shard_size=shard_size)
+    # a tag of its own per process: two simultaneous runs of the same check must not wipe each other's case files
+    tag = "%s-%d" % (pid, os.getpid())
+    fails, errs = vlib.coq_eval_cases(tag, HEADER, TYPE, checks, terms, shard_size=shard_size)
+    if not errs:
+        shutil.rmtree(os.path.join(vlib.CACHE, "cases", tag), ignore_errors=True)
     result["errors"].extend(errs)
     # histories in which some run of the folding peer loses an iteration in exactly the shape of the documented
     # cursor-hole deviation (StreamCases.c13_hole_evidence)
